@@ -3,8 +3,14 @@
    its entry-wise specification, and the operands that are not the output are
    left unchanged.  Corollaries of lincomb_impl_correct. *)
 From Coq Require Import ZArith Lia List Bool Field Ring.
-From Verif Require Import Base.Num Base.Vec C01.Syntax Gen.Lincomb C01.Carriers C01.Model C01.Laws
+From Verif Require Import Base.Num Base.Vec C01.Syntax Gen.Lincomb Gen.SpaceOps C01.Carriers C01.Model C01.Laws
   C01.Proofs C01.ModelSpace.
+
+(* expose the space-level calls of a regenerated operator program *)
+Ltac open_prog :=
+  cbn [run_w run_call eref_el sref_val];
+  unfold with_one, seq, w_lincomb1, w_lincomb2, w_multiply, w_divide;
+  cbn [space_lincomb1_call space_lincomb2_call space_multiply_call space_divide_call pick3 sval2 sval e_a e_b].
 Import ListNotations.
 Local Open Scope num_scope.
 
@@ -148,7 +154,7 @@ Theorem rsub_scalar_spec (c : T) (x t : nat) (s : store T) :
   t <> x -> length (s t) = length (s x) ->
   yields (w_rsub_scalar flg bdtf icast sp (Leaf x) c (Leaf t)) s t (map (fun e => c - e) (s x)).
 Proof.
-  intros Htx L2. unfold yields, w_rsub_scalar, with_one, seq, w_lincomb1. cbn [fill_elem]. cbv beta.
+  intros Htx L2. unfold yields, w_rsub_scalar, prog_rsub_scal. open_prog. cbn [fill_elem]. cbv beta.
   set (s1 := upd s t (map (fun _ => of_Z 1) (s t))).
   assert (E1 : s1 x = s x) by (unfold s1; apply upd_other; congruence).
   assert (E2 : s1 t = map (fun _ => of_Z 1) (s t)) by (unfold s1; apply upd_same).
@@ -167,13 +173,13 @@ Qed.
 
 (* ---- element-wise product and quotient ---- *)
 Theorem mul_spec (x y t : nat) (s : store T) :
-  yields (w_mul sp (Leaf x) (Leaf y) (Leaf t)) s t (vmul (s y) (s x)).
+  yields (w_mul flg bdtf icast sp (Leaf x) (Leaf y) (Leaf t)) s t (vmul (s y) (s x)).
 Proof.
   unfold yields, w_mul, ps_multiply. cbn [ps_map3]. unfold multiply_leaf, multiply_impl.
   eexists. split; [reflexivity|]. split; [apply upd_same | intros j Hj; apply upd_other; exact Hj].
 Qed.
 Theorem truediv_spec (x y t : nat) (s : store T) :
-  yields (w_truediv sp (Leaf x) (Leaf y) (Leaf t)) s t (vdiv (s x) (s y)).
+  yields (w_truediv flg bdtf icast sp (Leaf x) (Leaf y) (Leaf t)) s t (vdiv (s x) (s y)).
 Proof.
   unfold yields, w_truediv, ps_divide. cbn [ps_map3]. unfold divide_leaf, divide_impl.
   eexists. split; [reflexivity|]. split; [apply upd_same | intros j Hj; apply upd_other; exact Hj].
@@ -218,20 +224,68 @@ Proof.
   - intros j Hjx Hjt. rewrite (Hf j Hjx). unfold s1. apply upd_other. exact Hjt.
 Qed.
 
+Theorem isub_scalar_spec (c : T) (x t : nat) (s : store T) :
+  t <> x -> length (s t) = length (s x) ->
+  exists s', w_isub_scalar flg bdtf icast sp (Leaf x) c (Leaf t) s = Ok s'
+    /\ s' x = map (fun e => e - c) (s x)
+    /\ forall j, j <> x -> j <> t -> s' j = s j.
+Proof.
+  intros Htx L2. destruct (iadd_scalar_spec (- c) x t s Htx L2) as (s' & E & Ho & Hf).
+  exists s'. split; [exact E|]. split; [|exact Hf]. rewrite Ho. apply map_ext. intros e. ring.
+Qed.
+
+Theorem itruediv_scalar_spec (c : T) (x : nat) (s : store T) :
+  c <> nzero ->
+  yields (w_itruediv_scalar flg bdtf icast sp (Leaf x) c) s x (map (fun e => e / c) (s x)).
+Proof.
+  intros Hc. destruct (lin_leaf (of_Z 1 / c) (of_Z 0) x x x s eq_refl eq_refl) as (s' & E & Ho & Hf).
+  exists s'. split; [exact E|]. split; [|exact Hf]. rewrite Ho, vlin_same.
+  apply map_ext. intros e. rewrite nf_of0, nf_of1. field. exact Hc.
+Qed.
+
+(* c / x:  tmp = one(); lincomb(c, tmp, out=tmp); divide(tmp, x, out=tmp) *)
+Theorem rtruediv_scalar_spec (c : T) (x t : nat) (s : store T) :
+  t <> x -> length (s t) = length (s x) ->
+  yields (w_rtruediv_scalar flg bdtf icast sp (Leaf x) c (Leaf t)) s t (map (fun e => c / e) (s x)).
+Proof.
+  intros Htx L2. unfold yields, w_rtruediv_scalar, prog_rtruediv_scal. open_prog. cbn [fill_elem]. cbv beta.
+  set (s1 := upd s t (map (fun _ => of_Z 1) (s t))).
+  assert (E1 : s1 x = s x) by (unfold s1; apply upd_other; congruence).
+  assert (E2 : s1 t = map (fun _ => of_Z 1) (s t)) by (unfold s1; apply upd_same).
+  destruct (lin_leaf c (of_Z 0) t t t s1 eq_refl eq_refl) as (s2 & Ea & Ho2 & Hf2).
+  fold s1. rewrite Ea. cbn [bind].
+  assert (E3 : s2 x = s x) by (rewrite Hf2 by congruence; exact E1).
+  unfold ps_divide. cbn [ps_map3p pspace_divide_call]. unfold divide_leaf, divide_impl, ufunc_impl.
+  cbn [discr_divide_call tensor_divide_call pick3 uf_fn].
+  eexists. split; [reflexivity|]. split.
+  - rewrite upd_same, Ho2, E3, E2. entrywise.
+    destruct (nth_error_both (s x) (s t) k (eq_sym L2)) as [(u & v & Eu & Ev) | (Eu & Ev)]; rewrite ?Eu, ?Ev; cbn;
+      [f_equal; f_equal; rewrite nf_of0, nf_of1; ring | reflexivity].
+  - intros j Hj. rewrite upd_other by exact Hj. rewrite (Hf2 j Hj). unfold s1. apply upd_other. exact Hj.
+Qed.
+
+Theorem set_zero_spec (x : nat) (s : store T) :
+  yields (w_set_zero flg bdtf icast sp (Leaf x)) s x (map (fun _ => nzero) (s x)).
+Proof.
+  destruct (lin_leaf (of_Z 0) (of_Z 0) x x x s eq_refl eq_refl) as (s' & E & Ho & Hf).
+  exists s'. split; [exact E|]. split; [|exact Hf]. rewrite Ho, vlin_same.
+  apply map_ext. intros e. rewrite nf_of0. ring.
+Qed.
+
 Theorem imul_spec (x y : nat) (s : store T) :
-  yields (w_imul sp (Leaf x) (Leaf y)) s x (vmul (s y) (s x)).
+  yields (w_imul flg bdtf icast sp (Leaf x) (Leaf y)) s x (vmul (s y) (s x)).
 Proof.
   unfold yields, w_imul, ps_multiply. cbn [ps_map3]. unfold multiply_leaf, multiply_impl.
   eexists. split; [reflexivity|]. split; [apply upd_same | intros j Hj; apply upd_other; exact Hj].
 Qed.
 Theorem itruediv_spec (x y : nat) (s : store T) :
-  yields (w_itruediv sp (Leaf x) (Leaf y)) s x (vdiv (s x) (s y)).
+  yields (w_itruediv flg bdtf icast sp (Leaf x) (Leaf y)) s x (vdiv (s x) (s y)).
 Proof.
   unfold yields, w_itruediv, ps_divide. cbn [ps_map3]. unfold divide_leaf, divide_impl.
   eexists. split; [reflexivity|]. split; [apply upd_same | intros j Hj; apply upd_other; exact Hj].
 Qed.
 Theorem rtruediv_spec (x y t : nat) (s : store T) :
-  yields (w_rtruediv sp (Leaf x) (Leaf y) (Leaf t)) s t (vdiv (s y) (s x)).
+  yields (w_rtruediv flg bdtf icast sp (Leaf x) (Leaf y) (Leaf t)) s t (vdiv (s y) (s x)).
 Proof.
   unfold yields, w_rtruediv, ps_divide. cbn [ps_map3]. unfold divide_leaf, divide_impl.
   eexists. split; [reflexivity|]. split; [apply upd_same | intros j Hj; apply upd_other; exact Hj].
@@ -264,7 +318,7 @@ Ltac entrywise2 :=
 
 (* the three multiplications used by __ipow__ *)
 Lemma imul_run (a b : nat) (s : store T) :
-  w_imul sp (Leaf a) (Leaf b) s = Ok (upd s a (vmul (s b) (s a))).
+  w_imul flg bdtf icast sp (Leaf a) (Leaf b) s = Ok (upd s a (vmul (s b) (s a))).
 Proof. reflexivity. Qed.
 
 Lemma vmul_same_map (g h : T -> T) (l : list T) :
@@ -276,7 +330,7 @@ Qed.
 (* tmp *= self, k times, starting from tmp = self^m *)
 Lemma iter_tmul (k m : nat) (x t : nat) (s : store T) : t <> x ->
   s t = vpow (s x) m ->
-  exists s', iter_m k (w_imul sp (Leaf t) (Leaf x)) s = Ok s'
+  exists s', iter_m k (w_imul flg bdtf icast sp (Leaf t) (Leaf x)) s = Ok s'
     /\ s' t = vpow (s x) (m + k)
     /\ forall j, j <> t -> s' j = s j.
 Proof.
